@@ -86,7 +86,8 @@ func init() {
 		}
 		// hand-written seeds whose only conflicts are resolved by -a (an error shift against a reduction with error in
 		// its look-ahead): generated with -a, judged by the recovery rule over the resolved tables
-		for _, s := range []string{"S: L B ; L: a | a L | error ; B: b | error", "S: L T ; L: s | s L ; T: error x | y", "S: A B ; A: a | a a ; B: error b | b"} {
+		for _, s := range []string{"S: L B ; L: a | a L | error ; B: b | error", "S: L T ; L: s | s L ; T: error x | y", "S: A B ; A: a | a a ; B: error b | b",
+			"S: L B c ; L: a | a L | error ; B: b | error", "P: L T ; L: E | E L ; E: i semi | error semi ; T: dot | error bang"} {
 			it := corp.NewItem("Err-auto", gram.WithRecActions(gram.Mk(s)), "-a")
 			it.RtImp = true
 			items = append(items, it)
